@@ -12,6 +12,7 @@
 //   p(i)   side-effect probe: records "p(i)" and returns env.p[i]; the BUDGET-th call throws a Budget error
 //   o      recorder object (Proxy): records get:/set:/del:/has: with Object.is-precise values
 //   G      present or absent (undeclared) per env;   __env = {a, b}
+//   f(...) records "f(args)" and returns its first argument; console.log(...) records; DEF is never declared
 // Objects of the grid: plain {} and objects whose valueOf records "valueOf#id".
 // stdout: JSON {results:[{id, errors:[{variant, error}], units:[{id, traces:{envIdx: trace}, mismatches:[{variant, env, input, output}], nmis, nenv}]}]}
 'use strict';
@@ -120,6 +121,10 @@ function probe(i) {
   return cur.p[i];
 }
 tags.set(probe, 'fn:p');
+// host functions of the define/pure/drop family
+function hostF() { trace.push('f(' + Array.prototype.map.call(arguments, ser).join(',') + ')'); return arguments[0]; }
+const hostConsole = { log() { trace.push('console.log(' + Array.prototype.map.call(arguments, ser).join(',') + ')'); } };
+tags.set(hostF, 'fn:f');
 
 function makeRecorder() {
   let store = {};
@@ -157,7 +162,7 @@ function envsOf(unit) { return (input.envSets || {})[unit.envSet] || NOENV; }
 
 function runVariant(job, src) {
   const rec = makeRecorder();
-  const sandbox = { p: probe, o: rec.prox };
+  const sandbox = { p: probe, o: rec.prox, f: hostF, console: hostConsole };
   const ctx = vm.createContext(sandbox);
   // __env lives inside the context; the runner mutates its fields (no contextified-global traffic per run)
   const envObj = vm.runInContext('globalThis.__env = {a: undefined, b: undefined}', ctx);
